@@ -560,3 +560,7 @@ mod tests {
         );
     }
 }
+
+#[cfg(feature = "pendulum_project_ntpd_rs_verif")]
+#[path = "/verif/hooks/statime-base/time_types.rs"]
+pub mod vh_time_types;
